@@ -68,6 +68,15 @@ pub fn runs(tier: Tier) -> Vec<(HistCfg, Caps)> {
                     Caps { max_transitions: 600_000, max_wall: Duration::from_secs(25), max_signatures: 12 },
                 ));
             }
+            // below 33 dimensions every quantised split degenerates into a random one: the
+            // quantised split construction itself is exercised at 64 dimensions
+            let b64 = build_menu(&[None, Some(2)], &[Some(1), Some(2)], 1);
+            for m in [Metric::BqCosine, Metric::BqManhattan] {
+                runs.push((
+                    cfg(m, 64, 5, b64.clone(), vec![5, 1], obs.clone(), &format!("{}-d64", m.short())),
+                    Caps { max_transitions: 600_000, max_wall: Duration::from_secs(15), max_signatures: 12 },
+                ));
+            }
         }
         Tier::Thorough => {
             let full = build_menu(&[None, Some(1), Some(2), Some(3)], &[None, Some(1), Some(2), Some(3)], 2);
